@@ -5,7 +5,6 @@ import (
 	"fmt"
 	"math"
 	"math/rand"
-	"os"
 	"sort"
 	"time"
 
@@ -24,6 +23,13 @@ import (
 //	      UDist{N,K,T} (kind 1), KDE{Sample: Xs, Bandwidth: B} (kind 2) — relational against their own CDF
 //	op 5  supporting evidence: Kolmogorov-Smirnov distance of N draws of stats.Rand(c07PW) from
 //	      rand.New(rand.NewSource(Seeds[0])) to the distribution's own CDF
+//	op 8  the same N seeded draws, sorted, handed over: the Kolmogorov-Smirnov distance to the exact cdf is
+//	      computed by the Coq comparator
+//	op 7  stats.Rand of a relational-kind distribution (harness/c07_dists.go) with a scripted rand.Source
+//
+// ops 0 and 4 with Step != 0: the SAME piecewise cdf (pure jumps on the lattice X0 + i*Step) behind a
+// value that implements the whole stats.DiscreteDist interface (PMF, Step) and still has no InvCDF /
+// Rand method; Bounds may cut a tail or be wider than the support.
 type c07Knot struct {
 	X F64 `json:"x"` // break point
 	L F64 `json:"l"` // left limit of the cdf at X
@@ -46,6 +52,7 @@ type c07Case struct {
 	Src   []int64   `json:"src,omitempty"`
 	T     []int     `json:"t,omitempty"`
 	Xs    []F64     `json:"xs,omitempty"`
+	Step  F64       `json:"step,omitempty"`
 }
 
 // c07PW implements stats.DistCommon (CDF, Bounds) and nothing else: no InvCDF, no Rand method.
@@ -74,7 +81,9 @@ func (d *c07PW) CDF(x float64) float64 {
 	if hi == lo {
 		return lo
 	}
-	v := lo + (x-d.xs[i])*((hi-lo)/(d.xs[i+1]-d.xs[i]))
+	// the ratio is in [0,1] whatever the magnitude of the break points (2^-1000 .. 2^1022): nothing
+	// overflows or becomes subnormal; every operation is monotone in x
+	v := lo + ((x-d.xs[i])/(d.xs[i+1]-d.xs[i]))*(hi-lo)
 	if v > hi {
 		v = hi
 	}
@@ -84,6 +93,59 @@ func (d *c07PW) CDF(x float64) float64 {
 	return v
 }
 func (d *c07PW) Bounds() (float64, float64) { return d.bl, d.bh }
+
+// break points: 0 or 2^-1002 <= |x| <= MaxFloat64 (quarter steps of the smallest scale are still normal
+// numbers); the difference of two neighbouring break points must not overflow
+var c07MaxX, c07MinX = math.MaxFloat64, math.Ldexp(1, -1002)
+
+// c07DiscPW: a pure-jump c07PW as a stats.DiscreteDist (PMF, Step); no InvCDF, no Rand
+type c07DiscPW struct {
+	*c07PW
+	step float64
+}
+
+func (d c07DiscPW) Step() float64 { return d.step }
+func (d c07DiscPW) PMF(x float64) float64 {
+	// "x rounded down to the nearest defined point"
+	k := math.Floor((x - d.xs[0]) / d.step)
+	x = d.xs[0] + k*d.step
+	for i, xi := range d.xs {
+		if xi == x {
+			if i == 0 {
+				return d.vs[0]
+			}
+			return d.vs[i] - d.vs[i-1]
+		}
+	}
+	return 0
+}
+
+var _ stats.DiscreteDist = c07DiscPW{}
+
+// the distribution of ops 0, 4: the plain DistCommon, or the DiscreteDist when Step != 0
+func c07MakeDist(c *c07Case) (stats.DistCommon, *c07PW, error) {
+	d, err := c07MakePW(c)
+	if err != nil {
+		return nil, nil, err
+	}
+	st := float64(c.Step)
+	if st == 0 {
+		return d, d, nil
+	}
+	if !(st > 0) || math.IsInf(st, 0) {
+		return nil, nil, fmt.Errorf("bad step")
+	}
+	for i := range d.xs {
+		k := (d.xs[i] - d.xs[0]) / st
+		if k != math.Floor(k) || k > 1e6 || math.Abs(d.xs[i]) > 1e15 || d.xs[0]+k*st != d.xs[i] {
+			return nil, nil, fmt.Errorf("break points must be on the lattice x0 + i*step")
+		}
+		if i > 0 && d.ls[i] != d.vs[i-1] {
+			return nil, nil, fmt.Errorf("a discrete distribution has no ramps")
+		}
+	}
+	return c07DiscPW{d, st}, d, nil
+}
 
 func c07MakePW(c *c07Case) (*c07PW, error) {
 	n := len(c.Knots)
@@ -97,8 +159,11 @@ func c07MakePW(c *c07Case) (*c07PW, error) {
 	prevX, prevV := math.Inf(-1), 0.0
 	for i, k := range c.Knots {
 		x, l, v := float64(k.X), float64(k.L), float64(k.V)
-		if math.IsNaN(x) || math.Abs(x) > 1e12 || !(x > prevX) {
+		if math.IsNaN(x) || math.Abs(x) > c07MaxX || (x != 0 && math.Abs(x) < c07MinX) || !(x > prevX) {
 			return nil, fmt.Errorf("break points must be finite and increasing")
+		}
+		if i > 0 && math.IsInf(x-prevX, 0) {
+			return nil, fmt.Errorf("break points too far apart")
 		}
 		if !(l >= prevV && v >= l && v <= 1) || (i == 0 && l != 0) {
 			return nil, fmt.Errorf("levels must be non-decreasing from 0 to 1")
@@ -166,12 +231,12 @@ func c07Run(raw []byte) (*Line, error) {
 	l.I(7).I(c.Op)
 	switch c.Op {
 	case 0:
-		d, err := c07MakePW(&c)
+		dist, d, err := c07MakeDist(&c)
 		if err != nil {
 			return nil, err
 		}
 		l.c07PW(d)
-		c07Items(l, stats.InvCDF(d), c.Ys)
+		c07Items(l, stats.InvCDF(dist), c.Ys)
 	case 1:
 		p := float64(c.P)
 		if c.N < 0 || c.N > 200 || !(p >= 0 && p <= 1) {
@@ -235,7 +300,7 @@ func c07Run(raw []byte) (*Line, error) {
 			}
 		}
 	case 4:
-		d, err := c07MakePW(&c)
+		dist, d, err := c07MakeDist(&c)
 		if err != nil {
 			return nil, err
 		}
@@ -261,7 +326,7 @@ func c07Run(raw []byte) (*Line, error) {
 		}
 		src := &c07Src{vals: append([]int64(nil), c.Src...)}
 		var draw float64
-		pan, _ := catch(func() { draw = stats.Rand(d)(rand.New(src)) })
+		pan, _ := catch(func() { draw = stats.Rand(dist)(rand.New(src)) })
 		st := 0
 		if pan {
 			st = 2
@@ -270,70 +335,39 @@ func c07Run(raw []byte) (*Line, error) {
 		if src.pos >= 1 {
 			y = float64(c.Src[src.pos-1]) / (1 << 63)
 		}
-		ist, inv := c07Call(stats.InvCDF(d), y) // a separate closure, a separate call
+		ist, inv := c07Call(stats.InvCDF(dist), y) // a separate closure, a separate call
 		l.I(st).I(src.pos).F(y).F(draw).I(ist).F(inv)
 	case 6:
-		var dist stats.DistCommon
-		switch c.Kind {
-		case 0:
-			v := float64(c.A)
-			if !(v >= 0.5 && v <= 1e4) {
-				return nil, fmt.Errorf("bad degrees of freedom")
-			}
-			dist = stats.TDist{V: v}
-		case 1:
-			if c.N < 1 || c.K < 1 || c.N > 8 || c.K > 8 {
-				return nil, fmt.Errorf("bad sample sizes")
-			}
-			if c.T != nil {
-				sum := 0
-				for _, t := range c.T {
-					if t < 1 {
-						return nil, fmt.Errorf("bad tie vector")
-					}
-					sum += t
-				}
-				if sum != c.N+c.K {
-					return nil, fmt.Errorf("bad tie vector")
-				}
-			}
-			dist = stats.UDist{N1: c.N, N2: c.K, T: c.T}
-		case 2:
-			xs := fromF64s(c.Xs)
-			b := float64(c.B)
-			if len(xs) < 1 || len(xs) > 64 || !(b > 0 && b < 1e6) {
-				return nil, fmt.Errorf("bad kde")
-			}
-			for _, x := range xs {
-				if math.IsNaN(x) || math.Abs(x) > 1e7 {
-					return nil, fmt.Errorf("bad kde sample")
-				}
-			}
-			dist = &stats.KDE{Sample: stats.Sample{Xs: xs}, Bandwidth: b}
-		default:
-			return nil, fmt.Errorf("bad kind")
+		if err := c07RunRel(l, &c); err != nil {
+			return nil, err
 		}
-		var bl, bh, cbl, cbh float64
-		if pan, msg := catch(func() {
-			bl, bh = dist.Bounds()
-			cbl, cbh = dist.CDF(bl), dist.CDF(bh)
-		}); pan {
-			return nil, fmt.Errorf("distribution unusable: %s", msg)
+	case 7:
+		if err := c07RunRandRel(l, &c); err != nil {
+			return nil, err
 		}
-		l.I(c.Kind).F(bl).F(bh).F(cbl).F(cbh)
-		inv := stats.InvCDF(dist)
-		l.I(len(c.Ys))
-		for _, y := range c.Ys {
-			st, x := c07Call(inv, float64(y))
-			xm, c0, cm := math.NaN(), math.NaN(), math.NaN()
-			if st == 0 && !math.IsNaN(x) && !math.IsInf(x, 0) {
-				xm = x - (1e-9*math.Abs(x) + 1e-15)
-				if pan, _ := catch(func() { c0, cm = dist.CDF(x), dist.CDF(xm) }); pan {
-					st = 2
-				}
+	case 8:
+		dist, d, err := c07MakeDist(&c)
+		if err != nil {
+			return nil, err
+		}
+		if c.N < 1 || c.N > 1<<17 || len(c.Seeds) != 1 {
+			return nil, fmt.Errorf("bad draw count / seed")
+		}
+		l.c07PW(d)
+		xs := make([]float64, c.N)
+		pan, _ := catch(func() {
+			r := rand.New(rand.NewSource(c.Seeds[0]))
+			gen := stats.Rand(dist)
+			for i := range xs {
+				xs[i] = gen(r)
 			}
-			l.F(float64(y)).I(st).F(x).F(xm).F(c0).F(cm)
+		})
+		st := 0
+		if pan {
+			st = 2
 		}
+		sort.Float64s(xs) // NaNs first: the line then does not parse as a list of finite numbers = mismatch
+		l.I(st).Fs(xs)
 	case 5:
 		d, err := c07MakePW(&c)
 		if err != nil {
@@ -406,8 +440,11 @@ func c07GenPW(rng *rand.Rand) (knots []c07Knot, step float64) {
 	default:
 		c = 1e6 * float64(2*rng.Intn(2)-1)
 	}
-	// step scale 2^e: narrow and wide; mostly comparable to |c| so that the tolerance means something
+	// step scale 2^e: narrow and wide; mostly comparable to |c|.  At c = 0 any scale down to 2^-1000
 	e := rng.Intn(37) - 20 // -20..16
+	if c == 0 && rng.Intn(3) == 0 {
+		e = -20 - rng.Intn(980)
+	}
 	if c != 0 && rng.Intn(10) < 6 {
 		_, ce := math.Frexp(math.Abs(c))
 		e = ce - 1 - rng.Intn(8)
@@ -506,6 +543,15 @@ func c07GenPW(rng *rand.Rand) (knots []c07Knot, step float64) {
 		}
 	}
 	return
+}
+
+func c07NearZero(knots []c07Knot) bool {
+	for _, k := range knots {
+		if math.Abs(float64(k.X)) < math.Ldexp(1, -60) {
+			return true
+		}
+	}
+	return false
 }
 
 func c07GenBounds(rng *rand.Rand, knots []c07Knot, step float64) (bl, bh float64) {
@@ -697,19 +743,18 @@ func c07Gen(tier string, rng *rand.Rand, emit func(interface{})) {
 			}
 		}
 	}
-	// opt-in (VERIF_C07_TINY=1): distributions narrower than 1e-7 located at 0, where bisectBool's
-	// absolute xtol = 1e-16 limits the relative accuracy (reported under verdict code 10)
-	if os.Getenv("VERIF_C07_TINY") != "" {
-		for _, e := range []int{-24, -30, -40, -50, -70} {
-			w := math.Ldexp(1, e)
-			ys := toF64s([]float64{0.5, 0.25, 0.75, 0.3, 0.7, 0, 1})
-			emit(c07Case{Op: 0, Knots: []c07Knot{{X: 0, L: 0, V: 0}, {X: F64(w), L: 1, V: 1}}, Bl: 0, Bh: F64(w), Ys: ys})
-			emit(c07Case{Op: 0, Knots: []c07Knot{{X: F64(w), L: 0, V: 1}}, Bl: F64(w), Bh: F64(w), Ys: ys})
-			emit(c07Case{Op: 0, Knots: []c07Knot{{X: F64(-w), L: 0, V: 0.5}, {X: F64(w), L: 0.5, V: 1}}, Bl: F64(-w), Bh: F64(w), Ys: ys})
-		}
+	// distributions narrower than 1e-7 located at 0: an absolute bisection tolerance (xtol = 1e-16, the
+	// defect repaired by /repo bbd6d19) limits the RELATIVE accuracy there
+	for _, e := range []int{-24, -30, -40, -50, -70} {
+		w := math.Ldexp(1, e)
+		ys := toF64s([]float64{0.5, 0.25, 0.75, 0.3, 0.7, 0, 1})
+		emit(c07Case{Op: 0, Knots: []c07Knot{{X: 0, L: 0, V: 0}, {X: F64(w), L: 1, V: 1}}, Bl: 0, Bh: F64(w), Ys: ys})
+		emit(c07Case{Op: 0, Knots: []c07Knot{{X: F64(w), L: 0, V: 1}}, Bl: F64(w), Bh: F64(w), Ys: ys})
+		emit(c07Case{Op: 0, Knots: []c07Knot{{X: F64(-w), L: 0, V: 0.5}, {X: F64(w), L: 0.5, V: 1}}, Bl: F64(-w), Bh: F64(w), Ys: ys})
 	}
+	c07GenExtra(tier, rng, emit)
 	// (a) random piecewise distributions
-	for i := 0; i < 1800*mul; i++ {
+	for i := 0; i < 1500*mul; i++ {
 		knots, step := c07GenPW(rng)
 		bl, bh := c07GenBounds(rng, knots, step)
 		emit(c07Case{Op: 0, Knots: knots, Bl: F64(bl), Bh: F64(bh), Ys: c07GenYs(rng, knots)})
@@ -854,12 +899,33 @@ func c07Gen(tier string, rng *rand.Rand, emit func(interface{})) {
 		nks, draws = 40, 1000000
 	}
 	for i := 0; i < nks; i++ {
+		// with xtol = 0 a quantile at or next to 0 costs ~1100 cdf evaluations (the bisection goes down to the
+		// subnormals): the long runs use distributions with no break point within 2^-60 of 0; op 8 below has them
 		knots, step := c07GenPW(rng)
+		for tries := 0; tries < 100 && c07NearZero(knots); tries++ {
+			knots, step = c07GenPW(rng)
+		}
 		bl, bh := c07GenBounds(rng, knots, step)
 		emit(c07Case{Op: 5, Knots: knots, Bl: F64(bl), Bh: F64(bh), N: draws, Seeds: []int64{rng.Int63()}})
+	}
+	// the same with the distance computed by the comparator (fewer draws: they travel in the case line)
+	nks8, draws8 := 8, 4096
+	if tier == "thorough" {
+		nks8, draws8 = 30, 16384
+	}
+	for i := 0; i < nks8; i++ {
+		if i%4 == 3 {
+			knots, step, cutIdx := c07GenDisc(rng)
+			bl, bh := c07DiscBounds(rng, knots, step, cutIdx)
+			emit(c07Case{Op: 8, Knots: knots, Step: F64(step), Bl: F64(bl), Bh: F64(bh), N: draws8, Seeds: []int64{rng.Int63()}})
+			continue
+		}
+		knots, step := c07GenPW(rng)
+		bl, bh := c07GenBounds(rng, knots, step)
+		emit(c07Case{Op: 8, Knots: knots, Bl: F64(bl), Bh: F64(bh), N: draws8, Seeds: []int64{rng.Int63()}})
 	}
 }
 
 func init() {
-	register(&Prop{ID: "C07", Num: 7, Gen: c07Gen, Run: c07Run, Timeout: 10 * time.Second})
+	register(&Prop{ID: "C07", Num: 7, Gen: c07Gen, Run: c07Run, Timeout: 30 * time.Second})
 }
